@@ -121,6 +121,7 @@ def timing_eval(ctx, stream, ops_path, tag):
     mismatch covers (a) the line-by-line comparison and (b), for `debounce`, the trace acceptance: the event
     trace the harness observed is fed to the Lean driver, which must find it to be a run of the model."""
     from verif import Mismatch
+    ctx._c02_unjudged = 0
     ok, impl, model, log = ctx.run_pair(stream, ops_path, tag)
     if not ok:
         return False, 0, 0, None, [], impl, log
@@ -158,7 +159,18 @@ def timing_eval(ctx, stream, ops_path, tag):
             if len(res) < len(lines2):
                 mism = Mismatch(stream, ops[-1:], 0, "<trace acceptance>", "<lean driver stopped: %s>" % err[-300:], nc)
             else:
+                ctx._c02_unjudged = sum(1 for a in lines2 if a.startswith("trace") and "N|flood-unjudged" in a.split())
                 if tag == "run":
+                    for a in lines2:
+                        if a.startswith("trace"):
+                            toks = a.split()
+                            if "N|flood-judged" in toks:
+                                ctx.count("debounce.flood.judged(no-quiet-period-can-have-elapsed)")
+                            if "N|flood-unjudged" in toks:
+                                ctx.count("debounce.flood.unjudged(degraded:machine-load)")
+                            for t in toks:
+                                if t.startswith("N|flood-attempts=") and t[17:].isdigit() and int(t[17:]) > 1:
+                                    ctx.count("debounce.flood.repeated", int(t[17:]) - 1)
                     ctx.count("debounce.traces.accepted", sum(1 for a, b in zip(lines2, res) if a.startswith("trace") and b.startswith("accept")))
                     # which branches of pushWorker / the select loop the real code took (read off the observed times)
                     for a, b in zip(lines2, res):
@@ -179,7 +191,41 @@ def timing_eval(ctx, stream, ops_path, tag):
                         break
     if tag == "run" and stream == "sender":
         branch_counters_sender(ctx, ops, out)
+    if tag == "run" and stream == "server":
+        class_counters_server(ctx, ops, impl)
     return True, nc, nops, mism, fails, impl, log
+
+
+def class_counters_server(ctx, ops, impl):
+    """Classes of the server cases (from the case headers and the ops) and what the harness saw happen
+    (side file <impl>.stats: which way a both-ready select went, ConfigUpdate finding the channel full, ...)."""
+    for cl in split_cases(ops):
+        h = cl[0].split()
+        if len(h) >= 5:
+            ctx.count("server.class.push-throttle-%s" % ("default(100)" if h[3] == "0" else "saturated(%s)" % h[3]))
+            ctx.count("server.class.eds-debounce-%s" % ("on" if h[4] != "0" else "off"))
+            if h[4] == "0" and any(l.startswith("update") and len(l.split()) >= 3 and l.split()[2].startswith("Endpoints/") for l in cl):
+                ctx.count("server.class.eds-debounce-off-with-endpoints-only-updates")
+        if any(l.split()[:3] == ["update", "1", "-"] for l in cl):
+            ctx.count("server.class.key-less-forced-update")
+        if any(l.startswith("update") and len(l.split()) == 5 and l.split()[2] == "-" for l in cl):
+            ctx.count("server.class.addresses-or-waypoints-only-update")
+        if sum(1 for l in cl if l.startswith("connheld")) >= 2:
+            ctx.count("server.class.two-connections-parked-in-initialisation")
+        if any(l.split()[-1] == "router" for l in cl if l.startswith("conn")):
+            ctx.count("server.class.router-proxy")
+        burst = longest = 0
+        for l in cl:
+            burst = burst + 1 if l.startswith("update") else 0
+            longest = max(longest, burst)
+        if longest > 10:
+            ctx.count("server.class.burst-longer-than-the-push-channel")
+    sp = impl + ".stats"
+    if os.path.exists(sp):
+        for l in ctx.read_lines(sp):
+            f = l.split()
+            if len(f) == 2 and f[1].isdigit():
+                ctx.count("server." + f[0], int(f[1]))
 
 
 def branch_counters_sender(ctx, ops, out):
@@ -215,12 +261,24 @@ def timing_shrink(ctx, stream, case_lines, rounds=30):
     """Delta-debug a failing case of a timing stream (fails = disagreement, rejected trace or FAIL verdict)."""
     head, body = case_lines[0], list(case_lines[1:])
 
+    def badops(impl):
+        return sum(1 for l in ctx.read_lines(impl) if l.strip() == "bad-op") if impl and os.path.exists(impl) else 0
+
+    base = [None]
+
     def fails(lines):
         p = os.path.join(ctx.work, "%s.shrink.ops" % stream)
         with open(p, "w") as f:
             f.write("\n".join([head] + lines) + "\n")
-        ran, _, _, m, fv, _, _ = timing_eval(ctx, stream, p, "shrink")
-        return ran and (m is not None or bool(fv))
+        ran, _, _, m, fv, impl, _ = timing_eval(ctx, stream, p, "shrink")
+        if not (ran and (m is not None or bool(fv))):
+            return False
+        # a candidate must stay a well-formed case: removing a line (say, the `rsn` a later `req` refers to) must not
+        # turn other lines into `bad-op`
+        return base[0] is None or badops(impl) <= base[0]
+
+    if fails(body):
+        base[0] = badops(os.path.join(ctx.work, "%s.shrink.impl" % stream))
 
     n, i = 0, 0
     while i < len(body) and n < rounds:
@@ -289,6 +347,7 @@ def timing_stream(ctx, stream, ncases, attempts=3):
                 break
             if mism is None:
                 break
+            ctx.count("%s.re-run-after-a-disagreement" % stream)
             ctx.log("stream %s (%s) attempt %d: differs at case %d op %d\n   impl : %s\n   model: %s"
                     % (stream, tag, attempt + 1, mism.case_no, mism.line_in_case, mism.impl_line[:400], mism.model_line[:400]))
             rp = os.path.join(ctx.work, "%s.repro.ops" % stream)
@@ -378,6 +437,27 @@ def one_lake_build(ctx):
     ctx.lake_build = lb
 
 
+def source_facts(ctx):
+    """Facts read off the source of the tree under check (go/ast): initPushContext publishes under pushContextMu.Lock;
+    ProxyUpdate and the debug AdsPushAll read the global context and enqueue under pushContextMu.RLock.  They back
+    the guard of the model event PEv.proxyUpdate (a request enqueued later never carries an older push context),
+    which the sequential differential run cannot see broken; `puhammer` goes after the same race dynamically."""
+    from verif import REPO
+    rc, out = ctx.harness("srcfacts", os.path.realpath(REPO))
+    lines = [l for l in out.strip().split("\n") if l.strip()]
+    if rc != 0 or not lines:
+        ctx.tie_broken("source-facts", out)
+        return
+    for l in lines:
+        f = l.split(None, 2)
+        ctx.count("source-fact.%s" % ("holds" if len(f) >= 2 and f[1] == "ok" else "BROKEN"))
+        if len(f) < 2 or f[1] != "ok":
+            ctx.tie_broken("source-fact:" + f[0],
+                           "the model's assumption is no longer backed by the code: %s\n(the guard `p.version <= ver` of PEv.proxyUpdate / "
+                           "the hypothesis of pipeline_newest_snapshot: a request enqueued later never carries an older push context)" % l,
+                           {"fact": l})
+
+
 def robust(ctx, fn, *a, **kw):
     """harness/bin is shared with the checks of other properties running concurrently; if our binary
     disappears under us, rebuild it and run the step again (a machinery hiccup, not a verdict)."""
@@ -432,18 +512,26 @@ def run(ctx):
                 "queue: 1-4 connections, 3-80 Enqueue/Dequeue/MarkDone/ShutDown/Pending ops on a real PushQueue (a third of the enqueues "
                 "hand one shared request to every connection), drained at the end; "
                 "debounce: 1-7 sends (some with a snapshot, some endpoints-only with EDS debounce off) with sleeps around the quiet period and a "
-                "held pushFn (40% of cases put sends inside a running push); one case in eight sends copies of a request four to five times "
-                "closer together than the quiet period for three times debounceMax (a push has to be entered while they keep coming); the "
-                "observed event trace must be accepted as a run of the model; "
+                "held pushFn (40% of cases put sends inside a running push); one case in eight sends copies of a request about five times "
+                "closer together than a 40-60 ms quiet period for three times debounceMax: a push has to be entered by 2*debounceMax + "
+                "DebounceAfter; a flood is judged only if the clock shows that no two copies were a quiet period apart up to the push, and is "
+                "repeated (up to four times) otherwise; the observed event trace must be accepted as a run of the model; "
                 "sender: real doSendPushes, semaphore capacity 1-3, 1-4 connections (odd ids delta), enq/deliver/pushdone/close/stop/shut in any "
                 "order, rarely a nil request; "
-                "server: a real DiscoveryServer (push throttle 100, or 1-2 in a quarter of the cases; EDS debounce off in a sixth), 1-6 real "
-                "stream loops (SotW and delta), bursts of 1-4 or 11-18 ConfigUpdate calls (config keys, key-less forced, addresses / waypoints "
+                "server: a real DiscoveryServer (push throttle 100, or 1-2 in a quarter of the cases; EDS debounce off in a quarter, then a third "
+                "of the updates are endpoints-only and their Push calls overlap the debounced ones), 1-8 real stream loops (SotW and delta, a "
+                "quarter router proxies), bursts of 1-4 or 11-18 ConfigUpdate calls (config keys, key-less forced, addresses / waypoints "
                 "only, endpoints only), 2-6 concurrent ConfigUpdate callers, ProxyUpdate and the debug AdsPushAll at any point (also for a "
-                "connection stuck in Send with a newer snapshot waiting), client ACK traffic, Connection.Stop() while pushes are on their way and "
-                "while the stream loop is busy answering a request with a push event waiting for it, a connection parked between addCon and "
-                "MarkInitialized, Send failing, Send blocking, clients leaving (idle, blocked, parked mid-initialisation), the same node "
-                "re-connecting while its old stream ends, the push queue shut down with live stream loops; updates mostly name keys of their "
+                "connection stuck in Send with a newer snapshot waiting, and for an address with two registrations: both must get it), 4-16 "
+                "goroutines calling ProxyUpdate throughout a burst of push rounds (version clauses), client ACK traffic, requests for a new "
+                "resource type between pushes (also with a failing transport: Process fails), Recv failing with an unexpected error, "
+                "Connection.Stop() while pushes are on their way, while the stream loop is busy answering a request with a push event "
+                "waiting for it, on a connection parked in its initialisation and on one stuck in Send; one or two connections parked between "
+                "addCon and MarkInitialized, Send failing (also the first answer of a parked connection and a Send that is stuck), Send "
+                "blocking, clients leaving (idle, blocked, parked mid-initialisation), the same node re-connecting while its old stream "
+                "ends, the push queue shut down with live stream loops, the whole server stopped (stop channel closed, "
+                "DiscoveryServer.Shutdown) while push events are parked for connections that do not read; at every sync the server's "
+                "connection table must hold exactly the live connections; updates mostly name keys of their "
                 "own, a third repeat the previous keys (also alone in a sync window); expected and seen (c:/a:/w:/forced facts) are counted per "
                 "sync window (the model takes a ghost `mark` at every sync); snapshot versions per connection observed; "
                 "stress: 8 producers x 4 workers on one real queue; "
@@ -456,10 +544,15 @@ def run(ctx):
         "true for Push/AdsPushAll/ProxyUpdate, the only callers (all three are run by the server stream, which checks the versions each "
         "connection is pushed with); without it CopyMerge forgets the older / keeps the staler snapshot (copyMerge_push_nil_witness)",
         "only doSendPushes calls Dequeue and only its three exit paths (through done()) call MarkDone",
+        "the guard of the model event proxyUpdate (`p.version <= ver`: a request enqueued later never carries an older push context) is, in "
+        "the real code, the lock pairing initPushContext (publish under pushContextMu.Lock) / ProxyUpdate, debug AdsPushAll (read the "
+        "context AND enqueue under RLock): taken as a hypothesis by pipeline_newest_snapshot, pinned on the source by three go/ast facts "
+        "and gone after dynamically by `puhammer` under the version clauses",
         "'newest snapshot' means the snapshot of the request enqueued last on that connection; it is the newest one because the Push calls "
         "(each runs StartPush synchronously) do not overlap: proved for the debounced path (debounced_pushes_sequential); with "
         "PILOT_ENABLE_EDS_DEBOUNCE=false (not the default) the bypass Push can overlap another Push (eds_bypass_overlap_witness) and "
-        "different connections may then be offered two requests in different orders",
+        "different connections may then be offered two requests in different orders; the server stream runs such overlapping pushes "
+        "(loss clauses judged, version clauses not judged in a window where two Push calls can overlap)",
         "nobody enqueues a nil request (it would crash doSendPushes: nil_enqueue_crashes_witness; sender_never_crashes otherwise)",
         "pipeline_no_loss is stated for the connections registered from the start (unregistering allowed); a connection registering "
         "later, incl. the addCon-before-MarkInitialized window, is covered by the real-server stream only",
@@ -480,7 +573,20 @@ def run(ctx):
     ctx.trusted.append("pilot/pkg/xds/zz_verif_c04.go (VerifNewConnection / VerifNewDeltaConnection: bare connections used as queue keys)")
     ctx.trusted.append("pilot/pkg/xds/zz_verif_e2e.go (gate at 'init:after-addcon' used to park a connection mid-initialisation); "
                        "DiscoveryServer.ProxyNeedsPush (public field) wrapped to observe Event.pushRequest per connection")
+    ctx.trusted.append("pilot/test/xds.NewFakeDiscoveryServer builds the DiscoveryServer of the server stream (istio's own test fixture: "
+                       "memory registries, fake kube client, debounce 3 ms); `stopserver` runs its registered clean-ups (close of the "
+                       "stop channels, DiscoveryServer.Shutdown)")
+    ctx.trusted.append("the harness writes the package-level settings features.PushThrottle / features.EnableEDSDebounce before each "
+                       "server case (read by NewDiscoveryServer)")
+    ctx.trusted.append("the hand-made gRPC server streams emulate 'the stream context is cancelled when the handler returns' and "
+                       "'Recv fails when the context ends'; a failing transport fails the Sends of forced pushes and of answers to "
+                       "requests only (the model's rule)")
+    ctx.trusted.append("VerifC02QueueShutDown (zz_verif_c02.go) is a mutator, not an observer: it calls pushQueue.ShutDown(), the queue "
+                       "half of DiscoveryServer.Shutdown")
+    ctx.trusted.append("source facts read with go/ast (harness/c02/srcfacts.go): the lock pairing behind the guard of PEv.proxyUpdate")
+    robust(ctx, source_facts, ctx)
     robust(ctx, ctx.diff_stream, "merge", ctx.n(4000, 100000), oracle=oracle)
+    del ctx.samples[1:]  # one sample per stream (the evidence keeps six)
     robust(ctx, ctx.diff_stream, "queue", ctx.n(1500, 40000), oracle=oracle)
     # real timers / goroutines: only schedule-independent facts are compared (see harness/c02/debounce.go,
     # sender.go); small on purpose
@@ -490,7 +596,10 @@ def run(ctx):
     robust(ctx, timing_stream, ctx, "server", ctx.n(100, 1200))
     for stream in STREAMS:
         robust(ctx, oracle_all, ctx, stream)
-    robust(ctx, stress, ctx)
+    if ctx.violations:
+        ctx.log("stress skipped: a violation is already recorded")
+    else:
+        robust(ctx, stress, ctx)
     if not proved and not ctx.violations:
         pass  # finish() reports the broken proof; the oracle already searched every generated case
 
@@ -513,11 +622,18 @@ def replay(ctx, path):
     if stream in TIMING:
         # same judgement as the check run (timing_stream): a `verdict=FAIL:<clause>` in the answer of the real code is
         # the violation, whatever a second (racy) oracle run says; a disagreement counts when it shows twice
-        ran_any, mcount, last = False, 0, None
-        for k in range(3):
+        ran_any, mcount, last, judged_runs, k = False, 0, None, 0, 0
+        # a timing case says nothing in a run the machine spoiled (a flood whose copies came too far apart: trace note
+        # N|flood-unjudged): such runs are repeated - up to 12 runs for 3 judged ones
+        while judged_runs < 3 and k < 12:
+            k += 1
             ran, nc, nops, m, fv, impl, log = robust(ctx, timing_eval, ctx, stream, p, "replay")
             if not ran:
                 continue
+            if getattr(ctx, "_c02_unjudged", 0) and not fv and m is None:
+                ctx.count("replay.run-not-judged(machine-load)")
+                continue
+            judged_runs += 1
             if not ran_any:
                 ctx.account(stream, p, impl)
             ran_any = True
@@ -529,11 +645,14 @@ def replay(ctx, path):
                               {"stream": stream, "ops": ops, "harness_answer": line, "source": "replay"}, True)
                 return
             if m is None:
-                break
+                continue  # (what the case shows may depend on a coin - which way a both-ready select goes: three judged runs)
             mcount, last = mcount + 1, m
             if mcount == 2:
                 break
-        if not ran_any:
+        if not ran_any and k >= 12 and getattr(ctx, "_c02_unjudged", 0):
+            ctx.log("replay: no run could be judged (machine load: every flood let the quiet period elapse); nothing is claimed")
+            ctx.count("replay.not-judged")
+        elif not ran_any:
             ctx.tie_broken("stream-run:%s" % stream, log)
         elif mcount == 2:
             found = oracle(ctx, stream, ops, last.to_json(), only_case=True)
@@ -576,14 +695,18 @@ MANIFEST = {
                    "i.e. every reconnect and every new proxy) - that case is covered by the real-server stream only. "
                    "Tied to /repo on every run by differential runs against the real functions, incl. a real DiscoveryServer with real "
                    "stream loops (done() after a failing Send, AllClients incl. connections mid-initialisation, delta and SotW, "
-                   "ProxyUpdate, AdsPushAll, Connection.Stop, queue shutdown, saturated throttle, EDS debounce off)."),
+                   "ProxyUpdate (incl. two registrations of one address, and from concurrent goroutines), AdsPushAll, Connection.Stop, Recv / "
+                   "Process errors, router proxies, queue shutdown, server stop with parked push events, saturated throttle, overlapping "
+                   "Push calls with EDS debounce off, the connection table at rest)."),
     "level_note": ("Trusted: Lean kernel + {propext, Classical.choice, Quot.sound}; the hand-written models (tied by differential testing: "
                    "merge and queue exactly incl. object identities; debounce by trace acceptance - the observed event trace must be a run of "
                    "the model - plus schedule-independent facts; doSendPushes and the real server at rest); hook files zz_verif_c02.go, "
                    "zz_verif_c04.go, zz_verif_e2e.go (gate). Assumed, not proved: atomicity of the queue methods under their mutex "
                    "(stress-tested), scheduler/timer fairness for liveness, callers not writing to a request after hand-off, Push != nil and "
                    "request != nil on Enqueue, Push calls not overlapping (false with EDS debounce switched off). Liveness: per-stage theorems only, "
-                   "chained end to end by observation of the real server (rest is reached, everything delivered), not by a theorem. Gaps: the composed theorem "
+                   "chained end to end by observation of the real server (rest is reached, everything delivered), not by a theorem. The guard of proxyUpdate (`p.version <= ver`) is the pushContextMu lock pairing taken as a hypothesis "
+                   "(source facts + concurrent ProxyUpdate callers on the real server back it). The adsClients registration table is not "
+                   "modelled: 'exactly the live connections are registered at rest' is an oracle clause on the real server only. Gaps: the composed theorem "
                    "covers connections registered from the start only (later registration: tie only); pushConnection itself and gRPC are "
                    "not modelled (the stream loop is 'receive event, then done()'); a full push channel (ConfigUpdate blocks) is modelled "
                    "but a ConfigUpdate that drops on a full channel would not be caught by the tie."),
